@@ -136,7 +136,7 @@ Notation mst := (st W Z Z).
 
 Definition mlog (m : mst) (e : ev) : mst := set_world m (wlogev (world m) e).
 
-Definition FUEL := 4000.
+Definition FUEL := 200 * 150.
 
 Definition gop_of (o : op) : gop W Z :=
   match o with
